@@ -1,6 +1,9 @@
 import J5V.Json.EscapeProofs
 import J5V.Codec.ScalarProofs
 import J5V.Codec.Encode
+import J5V.Codec.EncTreeProofs
+import J5V.Codec.WireProofs
+import J5V.Props.C01
 import J5V.Generated.CodecFacts
 /-!
 # C08 — the encoder emits well-formed JSON in the documented wire format
@@ -58,7 +61,64 @@ theorem C08_float_forms (O : Oracle) (b : Nat) :
       · exact ⟨_, rfl, Or.inr (Or.inl rfl)⟩
     · exact ⟨_, rfl, Or.inl rfl⟩
 
+/-- **Every representable scalar is written in its documented representation** (README "Scalar
+Types", transcribed declaratively in `J5V.Codec.Wire`, which never mentions the encoder):
+strings and keys as JSON strings denoting the value; bools as `true` / `false`; 32-bit integers
+and floats as bare JSON numbers denoting the value; 64-bit integers as quoted decimal integers;
+bytes as padded standard base64 (RFC 4648 §4 shape, decoding to the bytes); dates as zero padded
+`YYYY-MM-DD` denoting year / month / day; decimals as the quoted text; timestamps as RFC 3339
+with the `Z` offset (shape assumed of `time.Format` by `OracleWire`, used for that kind only). -/
+theorem C08_scalar_conforms (O : Oracle) (L : OracleLaws O) (k : ScalarKind)
+    (W : k = .timestamp → OracleWire O) (v : PVal) (hok : scalarOk O k v = true) :
+    ∃ t, scalarNode O k v = .ok t ∧ Wire.scalarConforms O k v t :=
+  scalar_conforms O L k W v hok
+
+/-! ## well-formedness of the whole document -/
+
+/-- **Full statement**: every successful encoding, of any message, parses as one JSON document -/
+def C08_wellformed_full : Prop :=
+  ∀ (env : Env) (O : Oracle), FloatTextOk O → ∀ (root : String) (v : PVal) (bs : Bytes),
+    encodeBytes env O root v = .ok bs → ∃ t, parse bs = some t
+
+/-- **Proved part (`_partial`)**: for every environment without `Any` fields, **every** message
+(representable or not: non-finite floats, out-of-range dates, undefined enum numbers, invalid
+UTF-8, two oneof members set, …) and every root: if the encoder returns bytes at all, the strict
+parser (`J5V.Json.parse`: exactly one RFC 8259 value, all containers closed, nothing but
+whitespace after it) accepts them, and the parsed tree renders back to the same bytes.
+`FloatTextOk O` is the only assumption on the oracle: `strconv.FormatFloat(v,'g',-1,bits)` of a
+finite value is a JSON number.
+
+Missing for the full statement: `Any` values — the encoder inserts `j5_json` verbatim, so the
+statement needs "every `j5_json` is a JSON value" (with `j5_json = }` the output is
+`{…"value":}}`; a message like that is outside C01's representable messages). -/
+theorem C08_wellformed_partial (env : Env) (O : Oracle) (hna : env.noAny = true)
+    (hO : FloatTextOk O) (root : String) (v : PVal) (bs : Bytes)
+    (h : encodeBytes env O root v = .ok bs) : ∃ t, parse bs = some t ∧ t.render = bs := by
+  obtain ⟨t, _, hb, hp⟩ := encodeBytes_parses env O hna hO root v bs h
+  exact ⟨t, hp, hb.symm⟩
+
+/-- the strict parser returns exactly the tree the encoder built (numbers stay numbers, strings
+stay strings, member order and names as written) -/
+theorem C08_parse_is_encoder_tree (env : Env) (O : Oracle) (hna : env.noAny = true)
+    (hO : FloatTextOk O) (root : String) (v : PVal) (bs : Bytes)
+    (h : encodeBytes env O root v = .ok bs) :
+    ∃ t, encodeTree env O root v = .ok t ∧ parse bs = some t := by
+  obtain ⟨t, ht, _, hp⟩ := encodeBytes_parses env O hna hO root v bs h
+  exact ⟨t, ht, hp⟩
+
 /-! ## Non-vacuity -/
+
+example : scalarOk toyOracle .int64 (.int (-9223372036854775808)) = true := by decide
+example : scalarOk toyOracle .date (.date 33 1 2) = true := by decide
+example : scalarOk toyOracle .bytes (.bytes [0xfb, 0xff]) = true := by decide
+example : Wire.isDateShape (ascii "0033-01-02") = true := by decide
+example : Wire.isDateShape (ascii "  33-01-02") = false := by decide
+example : Wire.isPaddedStdBase64 (ascii "+/8=") 2 = true := by decide
+example : Wire.isPaddedStdBase64 (ascii "+/8") 2 = false := by decide
+example : Wire.jsonIntValue (ascii "-12") = some (-12) := by decide
+example : Wire.jsonIntValue (ascii "012") = none := by decide
+example : C01.sampleEnv.noAny = true := by decide
+example : FloatTextOk toyOracle := floatTextOk_of_laws _ toyOracle_laws
 
 example : appendString (ascii "a\"b\\c\n") = .ok (ascii "\"a\\\"b\\\\c\\n\"") := by decide
 /-- non-BMP text is copied, control characters become `\u00XX` -/
